@@ -239,57 +239,121 @@ Section Paths.
 End Paths.
 
 (* ------------------------------------------------------------------ exists_scan *)
-Lemma exists_scan_sub rs : forall seen e f, In (e, f) (exists_scan seen rs) -> f = false /\ In (e, false) rs.
+Lemma exists_scan_sub ks rs : forall seen e f, In (e, f) (exists_scan ks seen rs) -> f = false /\ In (e, false) rs.
 Proof.
   induction rs as [|[e1 f1] rs IH]; simpl; intros seen e f H; [contradiction|].
   destruct f1.
   - apply IH in H. tauto.
-  - destruct (existsb _ seen).
+  - destruct (in_dec key_eq_dec _ seen).
     + apply IH in H. tauto.
     + destruct H as [H|H]; [injection H as <- <-; auto|]. apply IH in H. tauto.
 Qed.
-Lemma exists_scan_first rs : (exists e, In (e, false) rs) -> exists_scan [] rs <> [].
+Lemma exists_scan_first ks rs : (exists e, In (e, false) rs) -> exists_scan ks [] rs <> [].
 Proof.
   induction rs as [|[e1 f1] rs IH]; intros [e H]; simpl in *; [contradiction|].
   destruct f1; [|discriminate].
   destruct H as [H|H]; [discriminate|]. apply IH. eauto.
 Qed.
-Lemma oval_eqb_refl k : oval_eqb k k = true.
-Proof. destruct k; simpl; auto. apply val_eqb_eq. reflexivity. Qed.
-Lemma oval_eqb_eq a b : oval_eqb a b = true -> a = b.
-Proof. destruct a, b; simpl; try discriminate; auto. intros H. apply val_eqb_eq in H. congruence. Qed.
 
-(* a run of results with one and the same root key, not seen before, is scanned on its own *)
-Lemma scan_skip k ch : forall seen rest, (forall r, In r ch -> lookup (fst r) PRoot = k) ->
-  existsb (oval_eqb k) seen = true -> exists_scan seen (ch ++ rest) = exists_scan seen rest.
+(* a true result is kept iff it is the first true result with its key, and the key was not seen before *)
+Lemma scan_spec ks rs : forall seen e,
+  In (e, false) (exists_scan ks seen rs) <->
+  exists pre post, rs = pre ++ (e, false) :: post /\ ~ In (keyof ks e) seen /\
+                   (forall e0, In (e0, false) pre -> keyof ks e0 <> keyof ks e).
 Proof.
-  induction ch as [|[e f] ch IH]; intros seen rest Hk Hs; simpl; auto.
-  assert (lookup e PRoot = k) by (apply (Hk (e, f)); simpl; auto).
-  destruct f; [apply IH; auto; intros; apply Hk; simpl; auto|].
-  rewrite H, Hs. apply IH; auto. intros; apply Hk; simpl; auto.
+  induction rs as [|[e1 f1] rs IH]; intros seen e; simpl.
+  - split; [tauto|]. intros [pre [post [H _]]]. destruct pre; discriminate.
+  - destruct f1.
+    + rewrite IH. split.
+      * intros [pre [post [-> [Hs Hp]]]]. exists ((e1, true) :: pre), post. split; auto. split; auto.
+        intros e0 [H|H]; [discriminate|auto].
+      * intros [pre [post [Heq [Hs Hp]]]]. destruct pre as [|r pre]; simpl in Heq; [discriminate|].
+        injection Heq as ? ?; subst. exists pre, post. split; auto. split; auto. intros e0 H. apply Hp. simpl; auto.
+    + destruct (in_dec key_eq_dec (keyof ks e1) seen) as [Hin|Hnin].
+      * rewrite IH. split.
+        -- intros [pre [post [-> [Hs Hp]]]]. exists ((e1, false) :: pre), post. split; auto. split; auto.
+           intros e0 [H|H]; [injection H as <-; congruence|auto].
+        -- intros [pre [post [Heq [Hs Hp]]]]. destruct pre as [|r pre]; simpl in Heq.
+           ++ injection Heq as ? ?; subst. contradiction.
+           ++ injection Heq as ? ?; subst. exists pre, post. split; auto. split; auto. intros e0 H. apply Hp. simpl; auto.
+      * simpl. rewrite IH. split.
+        -- intros [H|[pre [post [-> [Hs Hp]]]]].
+           ++ injection H as <-. exists [], rs. split; [reflexivity|]. split; [exact Hnin|]. intros e0 [].
+           ++ exists ((e1, false) :: pre), post. split; auto. split; [intros H; apply Hs; simpl; auto|].
+              intros e0 [H|H]; [injection H as <-; intros Hk; apply Hs; simpl; auto|auto].
+        -- intros [pre [post [Heq [Hs Hp]]]]. destruct pre as [|r pre]; simpl in Heq.
+           ++ injection Heq as ? ?; subst. auto.
+           ++ injection Heq as ? ?; subst. right. exists pre, post. split; auto. split.
+              ** intros [H|H]; [|contradiction]. apply (Hp e1); simpl; auto.
+              ** intros e0 H. apply Hp. simpl; auto.
 Qed.
-Lemma scan_chunk k ch : forall seen rest, (forall r, In r ch -> lookup (fst r) PRoot = k) ->
-  existsb (oval_eqb k) seen = false ->
-  exists seen', trues (exists_scan seen (ch ++ rest)) = trues (exists_scan [] ch) ++ trues (exists_scan seen' rest)
-                /\ (forall j, existsb (oval_eqb j) seen' = true -> j = k \/ existsb (oval_eqb j) seen = true).
+
+Lemma keyof_differs ks q e1 e2 : In q ks -> lookup e1 q <> lookup e2 q -> keyof ks e1 <> keyof ks e2.
 Proof.
-  induction ch as [|[e f] ch IH]; intros seen rest Hk Hs; simpl.
-  - exists seen. split; auto.
-  - assert (lookup e PRoot = k) by (apply (Hk (e, f)); simpl; auto).
-    destruct f.
-    + apply IH; auto. intros; apply Hk; simpl; auto.
-    + rewrite H, Hs. simpl. exists (k :: seen). split.
-      * rewrite (scan_skip k ch (k :: seen) rest); [|intros; apply Hk; simpl; auto|simpl; rewrite oval_eqb_refl; auto].
-        replace (exists_scan [k] ch) with (exists_scan [k] (ch ++ [])) by (rewrite app_nil_r; reflexivity).
-        rewrite (scan_skip k ch [k] []); [|intros; apply Hk; simpl; auto|simpl; rewrite oval_eqb_refl; auto].
-        simpl. unfold trues at 1 2. simpl. reflexivity.
-      * intros j Hj. simpl in Hj. apply orb_true_iff in Hj. destruct Hj as [Hj|Hj]; auto.
-        left. apply oval_eqb_eq in Hj. auto.
+  unfold keyof. induction ks as [|k ks IH]; simpl; [intros []|].
+  intros [->|Hin] Hne Heq; injection Heq as H1 H2; auto. apply IH; auto.
+Qed.
+
+Lemma flat_map_split {A B} (R : A -> list B) : forall L pre r post, flat_map R L = pre ++ r :: post ->
+  exists L1 x L2 p1 p2, L = L1 ++ x :: L2 /\ R x = p1 ++ r :: p2 /\ pre = flat_map R L1 ++ p1.
+Proof.
+  induction L as [|x L IH]; intros pre r post H; simpl in H.
+  - destruct pre; discriminate.
+  - apply app_eq_app in H. destruct H as [l [[H1 H2]|[H1 H2]]].
+    + destruct l as [|r0 l].
+      * simpl in H2. symmetry in H2. rewrite app_nil_r in H1. change (r :: post) with ([] ++ r :: post) in H2.
+        apply IH in H2. destruct H2 as [L1 [y [L2 [p1 [p2 [-> [Hy Hp]]]]]]].
+        exists (x :: L1), y, L2, p1, p2. split; auto. split; auto. simpl. rewrite <- app_assoc, <- Hp, app_nil_r. auto.
+      * simpl in H2. injection H2 as <- ->. exists [], x, L, pre, l. auto.
+    + apply IH in H2. destruct H2 as [L1 [y [L2 [p1 [p2 [-> [Hy Hp]]]]]]].
+      exists (x :: L1), y, L2, p1, p2. split; auto. split; auto. simpl. rewrite <- app_assoc, <- Hp. auto.
+Qed.
+
+Lemma first_gid {A} (gid : A -> val) (x : A) : forall L, In x L ->
+  exists L1 y L2, L = L1 ++ y :: L2 /\ gid y = gid x /\ forall z, In z L1 -> gid z <> gid x.
+Proof.
+  induction L as [|z L IH]; intros Hin; [contradiction|].
+  destruct (val_eq_dec (gid z) (gid x)) as [He|Hne].
+  - exists [], z, L. split; [reflexivity|]. split; [exact He|]. intros ? [].
+  - destruct Hin as [->|Hin]; [congruence|]. destruct (IH Hin) as [L1 [y [L2 [-> [Hy Hz]]]]].
+    exists (z :: L1), y, L2. split; auto. split; auto. intros w [<-|Hw]; auto.
+Qed.
+
+(* results grouped by the value of a node that is part of the key: the scan works group by group *)
+Lemma scan_chunks {A} ks (R : A -> list res) (gid : A -> val) (q : path) (L : list A) :
+  In q ks ->
+  (forall x r, In x L -> In r (R x) -> lookup (fst r) q = Some (gid x)) ->
+  (forall x y, In x L -> In y L -> gid x = gid y -> x = y) ->
+  forall e, In (e, false) (exists_scan ks [] (flat_map R L)) <-> exists x, In x L /\ In (e, false) (exists_scan ks [] (R x)).
+Proof.
+  intros Hq HR Hinj e. split.
+  - intros H. apply scan_spec in H. destruct H as [pre [post [Heq [_ Hp]]]].
+    apply flat_map_split in Heq. destruct Heq as [L1 [x [L2 [p1 [p2 [-> [Hx ->]]]]]]].
+    exists x. split; [apply in_or_app; simpl; auto|]. apply scan_spec. exists p1, p2. split; auto. split; auto.
+    intros e0 H0. apply Hp. apply in_or_app. auto.
+  - intros [x [Hx H]]. apply scan_spec in H. destruct H as [p1 [p2 [Heq [_ Hp]]]].
+    destruct (first_gid gid x L Hx) as [L1 [y [L2 [HL [Hy Hz]]]]].
+    assert (y = x). { apply Hinj; auto. rewrite HL. apply in_or_app; simpl; auto. } subst y.
+    apply scan_spec. exists (flat_map R L1 ++ p1), (p2 ++ flat_map R L2). split.
+    + rewrite HL, flat_map_app. simpl. rewrite Heq. rewrite <- !app_assoc. reflexivity.
+    + split; auto. intros e0 H0. apply in_app_or in H0. destruct H0 as [H0|H0]; auto.
+      apply in_flat_map in H0. destruct H0 as [z [Hz1 Hz2]].
+      apply (keyof_differs ks q); auto.
+      assert (Hzin : In z L) by (rewrite HL; apply in_or_app; auto).
+      pose proof (HR z (e0, false) Hzin Hz2) as Ha. simpl in Ha.
+      assert (He : In (e, false) (R x)) by (rewrite Heq; apply in_or_app; simpl; auto).
+      pose proof (HR x (e, false) Hx He) as Hb. simpl in Hb. rewrite Ha, Hb.
+      intros Hc. injection Hc as Hc. apply (Hz z Hz1). exact Hc.
 Qed.
 
 (* ------------------------------------------------------------------ conditions *)
 Definition cpath (c : tcond) : path := match c with TCmp _ _ p _ => p | THas p _ => p end.
 Definition is_ex (c : tcond) : bool := match c with TCmp true _ _ _ => true | _ => false end.
+
+Lemma flats_in r : forall q, under (PFlat r) q -> In (PFlat r) (flats q).
+Proof.
+  induction q; simpl; intros [H|H]; try discriminate; try contradiction; auto.
+Qed.
 
 Section Conds.
   Variable C : cmodel.
@@ -316,13 +380,34 @@ Section Conds.
   Lemma eval_all_factor1 c cs q e e1 v : under q (cpath c) -> (forall x, under q x -> lookup e x = None) ->
     eval_path q e = [(e1, v)] -> eval_all (c :: cs) e = eval_all (c :: cs) e1.
   Proof. intros Hu Hf H1. simpl. rewrite (eval_factor1 c q e e1 v Hu Hf H1). reflexivity. Qed.
-  Lemma eval_all_factor c cs q e : is_ex c = false -> under q (cpath c) -> (forall x, under q x -> lookup e x = None) ->
-    eval_all (c :: cs) e = flat_map (fun r : env * val => eval_all (c :: cs) (fst r)) (eval_path q e).
+
+  (* the first condition evaluated below an unbound node q: one independent evaluation per value of q -- also for an
+     exists(...), because q is part of its key *)
+  Lemma eval_all_split c cs q e :
+    under q (cpath c) -> (forall x, under q x -> lookup e x = None) ->
+    (is_ex c = true -> In q (exists_keys (cpath c)) /\
+       (forall r1 r2, In r1 (eval_path q e) -> In r2 (eval_path q e) -> snd r1 = snd r2 -> r1 = r2)) ->
+    forall e', In e' (eval_all (c :: cs) e) <-> exists r, In r (eval_path q e) /\ In e' (eval_all (c :: cs) (fst r)).
   Proof.
-    intros. simpl. rewrite (eval_factor c q e) by auto. rewrite trues_flat_map, flat_map_flat_map. reflexivity.
+    intros Hu Hfr Hex e'. destruct (is_ex c) eqn:Hx.
+    - destruct c as [[|] k pc v|]; try discriminate. destruct (Hex eq_refl) as [Hq Hinj]. simpl in Hu, Hq.
+      assert (Hscan : forall e1, In (e1, false) (eval (TCmp true k pc v) e) <->
+                exists r, In r (eval_path q e) /\ In (e1, false) (eval (TCmp true k pc v) (fst r))).
+      { intros e1. unfold Match.eval. rewrite (path_factor M D q pc e Hu Hfr), map_flat_map.
+        apply (scan_chunks (exists_keys pc)
+                 (fun r : env * val => map (fun r0 : env * val => (fst r0, negb (cmp M k (snd r0) v))) (eval_path pc (fst r)))
+                 snd q (eval_path q e) Hq); auto.
+        intros r r' Hr Hr'. apply in_map_iff in Hr'. destruct Hr' as [[e2 v2] [<- Hin]]. cbn [fst].
+        destruct r as [er vr]. cbn [fst snd] in *.
+        destruct (eval_path_props M D _ _ _ _ Hin) as [_ [Hx2 _]]. apply Hx2. apply (eval_path_binds M D _ _ _ _ Hr). }
+      simpl eval_all. rewrite in_flat_map. split.
+      + intros [e1 [H1 H2]]. apply in_trues in H1. apply Hscan in H1. destruct H1 as [r [Hr H1]].
+        exists r. split; auto. apply in_flat_map. exists e1. split; auto. apply in_trues. exact H1.
+      + intros [r [Hr H]]. apply in_flat_map in H. destruct H as [e1 [H1 H2]]. apply in_trues in H1.
+        exists e1. split; auto. apply in_trues. apply Hscan. eauto.
+    - simpl eval_all. rewrite (eval_factor c q e Hx Hu Hfr), trues_flat_map, flat_map_flat_map, in_flat_map. reflexivity.
   Qed.
 End Conds.
-
 
 (* ------------------------------------------------------------------ unfolding equations of the mutual fixpoints *)
 Lemma tr_pat_eq C oc p a t l :
@@ -385,6 +470,12 @@ Section TrUnder.
     - intros q IH oc p a c. simpl. apply IH.
     - intros v oc p a c. simpl. apply tr_vals_under.
     - intros v oc p a c. simpl. apply tr_vals_under.
+  Qed.
+  Lemma tr_alist_under_attr l : forall oc p c, In c (tr_alist C oc p l) -> exists a, under (PAttr p a) (cpath c).
+  Proof.
+    induction l as [|a ap rest IH]; intros oc p c; [intros []|].
+    rewrite tr_alist_cons, in_app_iff. intros [H|H]; [|eapply IH; exact H].
+    exists a. eapply (proj2 (proj2 tr_under)); exact H.
   Qed.
 End TrUnder.
 
@@ -526,16 +617,16 @@ Section Main.
   Qed.
 
   (* ---- one comparator ---- *)
-  Lemma trues_exists_scan rs :
-    (forall e', In e' (trues (exists_scan [] rs)) -> In e' (trues rs)) /\ (trues (exists_scan [] rs) <> [] <-> trues rs <> []).
+  Lemma trues_exists_scan ks rs :
+    (forall e', In e' (trues (exists_scan ks [] rs)) -> In e' (trues rs)) /\ (trues (exists_scan ks [] rs) <> [] <-> trues rs <> []).
   Proof.
     split.
     - intros e' H. apply in_trues in H. apply exists_scan_sub in H. apply in_trues. tauto.
     - rewrite !nonempty_ex. split.
       + intros [e' H]. exists e'. apply in_trues in H. apply exists_scan_sub in H. apply in_trues. tauto.
-      + intros [e' H]. apply in_trues in H. assert (Hne : exists_scan [] rs <> []) by (apply exists_scan_first; eauto).
-        destruct (exists_scan [] rs) as [|[e0 f0] sc] eqn:Hsc; [congruence|].
-        assert (Hin : In (e0, f0) (exists_scan [] rs)) by (rewrite Hsc; simpl; auto).
+      + intros [e' H]. apply in_trues in H. assert (Hne : exists_scan ks [] rs <> []) by (apply exists_scan_first; eauto).
+        destruct (exists_scan ks [] rs) as [|[e0 f0] sc] eqn:Hsc; [congruence|].
+        assert (Hin : In (e0, f0) (exists_scan ks [] rs)) by (rewrite Hsc; simpl; auto).
         apply exists_scan_sub in Hin. destruct Hin as [-> _]. exists e0. apply in_trues. simpl. auto.
   Qed.
 
@@ -635,17 +726,18 @@ Section Main.
   Proof. reflexivity. Qed.
   Lemma tr_apat_all oc p a v : tr_apat C oc p a (PAll v) = tr_vals C oc p a v true false.
   Proof. reflexivity. Qed.
-  Lemma tr_vals_truthy oc p a v un ex : truthy v = true ->
+  (* entity_matching (since 663e923): any value that is not None and not a type becomes a Literal variable *)
+  Lemma tr_vals_literal oc p a v un ex :
     tr_vals C oc p a v un ex = [infer (f_iter C oc a) true true un ex (PAttr p a) v].
-  Proof. intros H. unfold tr_vals, em_kind, unresolved. try rewrite H. reflexivity. Qed.
+  Proof. reflexivity. Qed.
 
   Lemma C_any v : C_stmt (PAny v).
   Proof.
     intros oc p a e o Hg Hp Hi Hf Hok.
-    change (fok_apat C objcls oc p a (PAny v)) with (is_some (f_type C oc a) && is_coll v && truthy v) in Hok.
-    apply andb_true_iff in Hok. destruct Hok as [Hok Htr]. apply andb_true_iff in Hok. destruct Hok as [Hty Hcv].
+    change (fok_apat C objcls oc p a (PAny v)) with (is_some (f_type C oc a) && is_coll v) in Hok.
+    apply andb_true_iff in Hok. destruct Hok as [Hty Hcv].
     destruct (f_type C oc a) as [d|] eqn:Hd; [|discriminate].
-    rewrite tr_apat_any, (tr_vals_truthy _ _ _ _ _ _ Htr).
+    rewrite tr_apat_any, tr_vals_literal.
     change (matches_attr (sub C) M (PAny v) (attr W o a)) with (common M (attr W o a) v).
     unfold infer, infer_kind, infer_exists. destruct (f_iter C oc a) eqn:Hit; cbn.
     - destruct (coll_is_list o oc a d Hi Hd Hit) as [xs [Hav _]].
@@ -661,11 +753,11 @@ Section Main.
   Proof.
     intros oc p a e o Hg Hp Hi Hf Hok.
     change (fok_apat C objcls oc p a (PAll v))
-      with (is_some (f_type C oc a) && f_iter C oc a && truthy v && match v with VLO _ => true | _ => false end) in Hok.
-    apply andb_true_iff in Hok. destruct Hok as [Hok Hv]. apply andb_true_iff in Hok. destruct Hok as [Hok Htr].
+      with (is_some (f_type C oc a) && f_iter C oc a && match v with VLO _ => true | _ => false end) in Hok.
+    apply andb_true_iff in Hok. destruct Hok as [Hok Hv].
     apply andb_true_iff in Hok. destruct Hok as [Hty Hit].
     destruct (f_type C oc a) as [d|] eqn:Hd; [|discriminate]. destruct v as [z|z|m|m]; try discriminate.
-    rewrite tr_apat_all, (tr_vals_truthy _ _ _ _ _ _ Htr).
+    rewrite tr_apat_all, tr_vals_literal.
     change (matches_attr (sub C) M (PAll (VLO m)) (attr W o a)) with (same_set M (attr W o a) (VLO m)).
     unfold infer, infer_kind, infer_exists. rewrite Hit. cbn.
     destruct (coll_is_list o oc a d Hi Hd Hit) as [xs [Hav _]].
@@ -702,9 +794,6 @@ Section Main.
     assert (psize x <= psize pv) by (apply Hs; auto; congruence).
     apply under_size in Hx. simpl in Hx. lia.
   Qed.
-
-  Lemma head_not_ex c cs : head_ok (c :: cs) = true -> is_ex c = false.
-  Proof. destruct c as [[|] k q v|q T]; simpl; auto. Qed.
 
   Lemma P_case t l' : A_stmt l' -> P_stmt (Pat t l').
   Proof.
@@ -764,12 +853,28 @@ Section Main.
       destruct cs as [|c cs'] eqn:Hcs; [discriminate|]. rewrite <- Hcs in *.
       assert (Hmem : forall e', In e' (eval_all cs e) <->
                 exists ox, In ox xs /\ In e' (eval_all cs ((pf, VO ox) :: (PAttr p a, attr W o a) :: e))).
-      { intros e'. rewrite Hcs. rewrite (eval_all_factor C M D c cs' pf e).
-        - rewrite <- Hcs. unfold pf. rewrite (eval_flat_from e p a o Hp Hf), flat_map_map. cbn [fst]. rewrite Hav. cbn [elems].
-          rewrite flat_map_map, in_flat_map. split; intros [ox ?]; exists ox; auto.
-        - apply (head_not_ex c cs'). rewrite <- Hcs. exact Hhead.
-        - apply (proj1 (proj2 (tr_under C)) l' d pf c). fold cs. rewrite Hcs. simpl. auto.
-        - intros x Hx. apply Hf. eapply under_trans; [apply under_flat|exact Hx]. }
+      { intros e'. rewrite Hcs.
+        assert (Hcu : exists ax, under (PAttr pf ax) (cpath c)).
+        { apply (tr_alist_under_attr C l' d pf c). fold cs. rewrite Hcs. simpl. auto. }
+        destruct Hcu as [ax Hcu].
+        assert (Hev2 : eval_path pf e = map (fun x => ((pf, x) :: (PAttr p a, attr W o a) :: e, x)) (map VO xs)).
+        { unfold pf. rewrite (eval_flat_from e p a o Hp Hf), Hav. reflexivity. }
+        rewrite (eval_all_split C M D c cs' pf e).
+        - rewrite <- Hcs, Hev2. split.
+          + intros [r [Hr Hin]]. apply in_map_iff in Hr. destruct Hr as [x [<- Hx]]. apply in_map_iff in Hx.
+            destruct Hx as [ox [<- Hox]]. exists ox. auto.
+          + intros [ox [Hox Hin]]. exists ((pf, VO ox) :: (PAttr p a, attr W o a) :: e, VO ox). split; auto.
+            apply in_map_iff. exists (VO ox). split; auto. apply in_map; auto.
+        - eapply under_trans; [apply under_attr|exact Hcu].
+        - intros x Hx. apply Hf. eapply under_trans; [apply under_flat|exact Hx].
+        - intros Hx. split.
+          + destruct c as [ex k pc v|]; [|discriminate]. simpl in Hcu. unfold exists_keys. right. unfold pf. apply flats_in.
+            destruct pc as [|pc' a1|pc']; simpl qvar.
+            * eapply under_trans; [apply under_attr|exact Hcu].
+            * eapply under_trans; [apply under_attr|exact Hcu].
+            * simpl in Hcu. destruct Hcu as [Hc|Hc]; [discriminate|]. eapply under_trans; [apply under_attr|exact Hc].
+          + rewrite Hev2. intros r1 r2 H1 H2 Heq. apply in_map_iff in H1. apply in_map_iff in H2.
+            destruct H1 as [x1 [<- _]]. destruct H2 as [x2 [<- _]]. simpl in Heq. subst. reflexivity. }
       assert (Hnest : forall ox, In ox xs ->
                 concl (PAttr p a) cs ((pf, VO ox) :: (PAttr p a, attr W o a) :: e) (matches_attrs (sub C) M l' ox) /\
                 (forall e', In e' (eval_all cs ((pf, VO ox) :: (PAttr p a, attr W o a) :: e)) -> ext e' e /\ frame (PAttr p a) e e')).
@@ -905,42 +1010,22 @@ Section Main.
   Qed.
 
   (* ---- the root variable: one independent evaluation per domain element ---- *)
-  Lemma scan_roots (R : Z -> list res) : forall Ds, NoDup Ds ->
-    (forall o r, In r (R o) -> lookup (fst r) PRoot = Some (VO o)) ->
-    forall seen, (forall o, In o Ds -> existsb (oval_eqb (Some (VO o))) seen = false) ->
-    trues (exists_scan seen (flat_map R Ds)) = flat_map (fun o => trues (exists_scan [] (R o))) Ds.
-  Proof.
-    induction Ds as [|o Ds IH]; intros Hnd HR seen Hseen; simpl; auto.
-    inversion Hnd as [|? ? Hnin Hnd']; subst.
-    destruct (scan_chunk (Some (VO o)) (R o) seen (flat_map R Ds)) as [seen' [Heq Hs']].
-    - intros r Hr. apply (HR o r Hr).
-    - apply Hseen. simpl; auto.
-    - eapply eq_trans; [exact Heq|]. f_equal. apply IH; auto.
-      intros o' Ho'. destruct (existsb (oval_eqb (Some (VO o'))) seen') eqn:He; auto. exfalso.
-      destruct (Hs' _ He) as [Hj|Hj].
-      + injection Hj as ->. contradiction.
-      + rewrite Hseen in Hj by (simpl; auto). discriminate.
-  Qed.
-
   Definition root_env (o : Z) : env := [(PRoot, VO o)].
   Lemma eval_root_nil : eval_path PRoot [] = map (fun o => (root_env o, VO o)) D.
   Proof. reflexivity. Qed.
 
-  Lemma root_split c cs : NoDup D ->
-    eval_all (c :: cs) [] = flat_map (fun o => eval_all (c :: cs) (root_env o)) D.
+  Lemma root_split c cs e' :
+    In e' (eval_all (c :: cs) []) <-> exists o, In o D /\ In e' (eval_all (c :: cs) (root_env o)).
   Proof.
-    intros Hnd. simpl.
-    assert (Htr : trues (eval c []) = flat_map (fun o => trues (eval c (root_env o))) D).
-    { destruct (is_ex c) eqn:Hex.
-      - destruct c as [[|] k pc v|]; try discriminate. unfold Match.eval.
-        rewrite (path_factor M D PRoot pc [] (under_root pc)) by (intros; reflexivity).
-        rewrite eval_root_nil, flat_map_map, map_flat_map. cbn [fst].
-        apply (scan_roots (fun o => map (fun r : env * val => (fst r, negb (cmp M k (snd r) v))) (eval_path pc (root_env o)))); auto.
-        intros o r Hr. apply in_map_iff in Hr. destruct Hr as [[e1 v1] [<- Hin]]. cbn [fst].
-        destruct (eval_path_props M D _ _ _ _ Hin) as [_ [Hx _]]. apply Hx. apply lookup_cons_eq.
-      - rewrite (eval_factor C M D c PRoot []); auto; [|apply under_root].
-        rewrite eval_root_nil, flat_map_map, trues_flat_map. reflexivity. }
-    rewrite Htr, flat_map_flat_map. reflexivity.
+    rewrite (eval_all_split C M D c cs PRoot []).
+    - rewrite eval_root_nil. split.
+      + intros [r [Hr Hin]]. apply in_map_iff in Hr. destruct Hr as [o [<- Ho]]. eauto.
+      + intros [o [Ho Hin]]. exists (root_env o, VO o). split; auto. apply in_map_iff. eauto.
+    - apply under_root.
+    - intros; reflexivity.
+    - intros _. split; [simpl; auto|]. rewrite eval_root_nil. intros r1 r2 H1 H2 Heq.
+      apply in_map_iff in H1. apply in_map_iff in H2. destruct H1 as [o1 [<- _]]. destruct H2 as [o2 [<- _]].
+      simpl in Heq. injection Heq as ->. reflexivity.
   Qed.
 
   Lemma select_root_bound e o : lookup e PRoot = Some (VO o) -> select_root M D e = [o].
@@ -950,32 +1035,32 @@ Section Main.
     unfold select_root. rewrite eval_root_nil, flat_map_map. cbn [snd]. apply flat_map_single.
   Qed.
 
-  Theorem run_conds_exact T l : NoDup D -> fok_alist C objcls T PRoot l = true -> (forall o, In o D -> inst o T) ->
+  Theorem run_conds_exact T l : fok_alist C objcls T PRoot l = true -> (forall o, In o D -> inst o T) ->
     forall o, In o (run_conds C M D (tr_alist C T PRoot l)) <-> In o D /\ matches_attrs (sub C) M l o = true.
   Proof.
-    intros Hnd Hok HD o. unfold run_conds. rewrite true_envs_seq.
+    intros Hok HD o. unfold run_conds. rewrite true_envs_seq.
     destruct (tr_alist C T PRoot l) as [|c cs] eqn:Hcs.
     - simpl. rewrite app_nil_r, select_root_nil. split; [|tauto]. intros Hin. split; auto.
       destruct (match_sat T l o Hok Hin (HD o Hin)) as [Hm _]. rewrite Hcs in Hm. apply Hm. simpl. discriminate.
-    - rewrite (root_split c cs Hnd), <- Hcs, in_flat_map. split.
-      + intros [e' [Hin Hsel]]. apply in_flat_map in Hin. destruct Hin as [o1 [Ho1 Hin]].
+    - rewrite in_flat_map. split.
+      + intros [e' [Hin Hsel]]. apply root_split in Hin. destruct Hin as [o1 [Ho1 Hin]]. rewrite <- Hcs in Hin.
         destruct (match_sat T l o1 Hok Ho1 (HD o1 Ho1)) as [Hm Hroot].
         rewrite (select_root_bound e' o1 (Hroot e' Hin)) in Hsel. destruct Hsel as [<-|[]]. split; auto.
         apply Hm. apply nonempty_ex. eauto.
       + intros [Hin Hmt]. destruct (match_sat T l o Hok Hin (HD o Hin)) as [Hm Hroot].
-        apply Hm in Hmt. apply nonempty_ex in Hmt. destruct Hmt as [e' He'].
-        exists e'. split; [apply in_flat_map; eauto|]. rewrite (select_root_bound e' o (Hroot e' He')). simpl; auto.
+        apply Hm in Hmt. apply nonempty_ex in Hmt. destruct Hmt as [e' He']. rewrite Hcs in He'.
+        exists e'. split; [apply root_split; eauto|]. rewrite <- Hcs in He'.
+        rewrite (select_root_bound e' o (Hroot e' He')). simpl; auto.
   Qed.
 End Main.
 
 (* C11: the answer of the pattern query is the set of domain elements of type T that the Spec denotes *)
 Theorem match_run_exact C objcls M T l dom :
-  sub_trans C -> typed C objcls M -> NoDup dom -> F11 C objcls T l = true ->
+  sub_trans C -> typed C objcls M -> F11 C objcls T l = true ->
   forall o, In o (run C M T l dom) <-> In o (spec_run (sub C) M T l dom).
 Proof.
-  intros Ht Hty Hnd HF o. unfold run, spec_run.
+  intros Ht Hty HF o. unfold run, spec_run.
   rewrite (run_conds_exact C objcls M (filter (fun o0 => sub C (otype M o0) T) dom) Ht Hty T l); auto.
   - rewrite !filter_In, matches_eq. cbn [type_ok]. rewrite andb_true_iff. tauto.
-  - apply NoDup_filter. exact Hnd.
   - intros o0 Ho0. apply filter_In in Ho0. apply Ho0.
 Qed.
